@@ -694,6 +694,16 @@ def sampling_case(ctx, g, tree, obj, case, skey):
         ctx.require("sample draws the requested number of samples", n == num_samples, case, {"drawn": n})
     else:
         good, want = stats_ok(out, ref, scale)
+        if not good and len(chunks) >= 2:
+            # a leading sample() call may only INITIALISE the chains (its output is the next call's start state, not a
+            # draw): the drawn samples are then all recorded batches but the first
+            vals2 = [np.concatenate([c[i] for c in chunks[1:]]) for i in range(len(leaves))]
+            ref2, mag2 = interp(tree, vals2)
+            ref2 = np.broadcast_to(np.asarray(ref2, dtype=float), (len(vals2[0]),)).copy()
+            good2, _ = stats_ok(out, ref2, scale)
+            if good2:
+                ctx.count("statistics:leading_initialisation_call")
+                good, vals, n, ref = True, vals2, len(vals2[0]), ref2
         ctx.require("statistics(...) == one-pass statistics of the combined per-sample values of all drawn samples", good, case,
                     {"impl": {k: float(v) for k, v in out.items()} if isinstance(out, dict) else repr(out), "one_pass": want,
                      "draws": [int(b.shape[0]) for b in rec.log]})
